@@ -297,9 +297,28 @@ func counterFlowsOnly(v ssa.Value, phi *ssa.Phi, inc *ssa.BinOp, seen map[ssa.Va
 }
 
 func c05R3(p *core.Program, r *core.Report, e *engineFns) {
-	countWaits := p.Method("flows/engine", "session", "countWaits")
+	// the wait counter is found by role: the function of the engine package whose result the resume entry compares with
+	// Options().MaxResumesPerSession
+	var countWaits *ssa.Function
+	core.EachInstr(e.tryResume, false, func(_ *ssa.Function, in ssa.Instruction) {
+		iff, ok := in.(*ssa.If)
+		if !ok {
+			return
+		}
+		bo, ok := iff.Cond.(*ssa.BinOp)
+		if !ok || !derivesFromOptionsField(bo.Y, "MaxResumesPerSession") {
+			return
+		}
+		for v := range core.BackSlice(bo.X, nil) {
+			if c, ok := v.(*ssa.Call); ok {
+				if f := c.Call.StaticCallee(); f != nil && core.FuncPkgPath(f) == core.FuncPkgPath(e.tryResume) && len(f.Blocks) > 0 {
+					countWaits = f
+				}
+			}
+		}
+	})
 	if countWaits == nil {
-		r.Errorf("session.countWaits not found")
+		r.Bad("R3", "tryToResume/resume-limit-test", p.Pos(e.tryResume.Pos()), "the resume entry does not compare a count of the session's waits with Options().MaxResumesPerSession")
 		return
 	}
 	var limCond *ssa.BinOp
@@ -608,7 +627,8 @@ func c05R4(p *core.Program, r *core.Report) {
 		return
 	}
 	qrOK, attOK, txtOK := false, false, false
-	for _, cs := range core.Calls(em, false) {
+	for _, ec := range core.EffectiveCalls(em, 2) {
+		cs := ec.Inner
 		b, ok := cs.Common().Value.(*ssa.Builtin)
 		if !ok || b.Name() != "append" {
 			continue
